@@ -5,6 +5,9 @@ from .common import sim_rules
 from .aisetup import total_roots_rule
 
 
+from . import castlingrules as _castlingrules
+
+
 def run(ctx):
     facts = ctx.facts("dev")
     ctx.decided += [
@@ -51,5 +54,11 @@ def run(ctx):
                 "interpreted on the abstract post-state of every kind (shared with C04/K2)",
                 ("undo", "cells", "occupancy", "unmodelled"), "unmake/"),
     })
+    ctx.decided += [
+        "M9u update_castling, tabulated on all (side, rights, changed home squares) points, removes exactly the rights whose king or rook home "
+        "square changed - whichever colour's, also when one move touches home squares of both (= C03/A2u): a stale right would let a later "
+        "castling be accepted with no rook to castle with",
+    ]
+    _castlingrules.update_castling_rule(ctx, facts, "M9u")
     witness.cf_rule(ctx, 'M6w', ('cf/C02/', 'cf/C19/unsafe-make', 'cf/C19/unsafe-new'),
                     'safe code outside the crate cannot reach the unchecked make/constructors or the raw board inside a Board (compile-fail witnesses)')
